@@ -1029,6 +1029,16 @@ func runC16(c *Ctx) {
 			case 0, 1, 2:
 				w = worlds[c.Intn(len(worlds))]
 				call = entryCall{Entry: "spec", Skip: c.Coin(0.2), Cont: c.Coin(0.2), Abs: c.Coin(0.3)}
+				if c.Coin(0.3) {
+					// this call's loader refuses one document and the call carries on: what could not be fetched now says
+					// nothing about what a later call's loader serves
+					for _, u := range w.URLs() {
+						if u != w.Root {
+							call.Cont, call.Refuse = true, []string{u}
+							break
+						}
+					}
+				}
 			case 3:
 				w = worlds[c.Intn(len(worlds))]
 				els := rootElements(w, "definitions", "schemaWithBase")
@@ -1076,7 +1086,15 @@ func runC16(c *Ctx) {
 			c.Hit("entry:" + call.Entry)
 			cs := map[string]interface{}{"world": wj, "call": call, "history": h, "step": step}
 			t := &tracer{}
-			got := runEntry(w, call, nil, tracedLoader(w, t, nil))
+			var refuse map[string]bool
+			if len(call.Refuse) > 0 {
+				refuse = map[string]bool{}
+				for _, u := range call.Refuse {
+					refuse[u] = true
+				}
+				c.Hit("loader-refuses-a-document")
+			}
+			got := runEntry(w, call, nil, tracedLoader(w, t, refuse))
 			got.Loads = fetchesOf(t.events())
 			if got.Panic != "" || got.Hang {
 				c.Fail(Failure{Kind: "crash", Sig: "C04:panic-or-hang", What: got.Panic, Case: cs})
@@ -1101,7 +1119,7 @@ func runC16(c *Ctx) {
 				// order from run to run) and report only a discrepancy that persists
 				persists := true
 				for try := 0; try < 3 && persists; try++ {
-					again := runEntry(w, call, nil, tracedLoader(w, &tracer{}, nil))
+					again := runEntry(w, call, nil, tracedLoader(w, &tracer{}, refuse))
 					if _, ok2 := sameOutcome(w, kindOfEntry(call.Entry), alone, again, g.Cyclic() || kindOfEntry(call.Entry) == "meta"); ok2 {
 						persists = false
 					}
@@ -1132,7 +1150,7 @@ func runC16(c *Ctx) {
 					prog = append(prog, []interface{}{"load", u})
 				}
 				impl, _ := json.Marshal(map[string]interface{}{"log": nonNil(got.Loads)})
-				c.Corr(map[string]interface{}{"op": "simulate", "initial": init, "loader": nonNilI(loaderTable(w, nil, got.Loads)), "prog": nonNilI(prog), "project": []string{"log"}}, string(impl), "json", cs)
+				c.Corr(map[string]interface{}{"op": "simulate", "initial": init, "loader": nonNilI(loaderTable(w, refuse, got.Loads)), "prog": nonNilI(prog), "project": []string{"log"}}, string(impl), "json", cs)
 			}
 			if len(c.Res.Samples) < 3 && cross {
 				c.Sample(map[string]interface{}{"history": h, "step": step, "call": call, "loads": got.Loads})
